@@ -31,14 +31,14 @@ RULE = ("garbage-loop templates, one per allocation kind {pairs, vectors, string
 ASSUMPTIONS = [
     "process memory outside the VM heap (Rc cycles, Vec capacities such as the stack vector, allocator) is NOT covered: C12 is decided for the VM heap only (partial)",
     "B (allocations between two collection points) is measured as cadence x the largest tick-to-tick allocation count seen by the hook; L is the largest reachable-cell count the harness's own traversal saw (or the used count when no collection ran)",
-    "the f64 utilisation tests of run_gc are taken to coincide with the rational tests of the counter machine (util_test_rational_stmt, OPEN, capacities far below 2^52)",
+    "the f64 utilisation tests of run_gc coincide with the rational tests of the counter machine for capacities below 2^52 (proved: C12_util_test_rational, C12_util_test_rational_gt)",
 ]
 TRUSTED_BASE = ["hooks marwood/src/vm/verif.rs (heap capacity/used, forced-collection observer, allocation counter)",
                 "lib/gen_coq.py translator of the GC constants (coq/Gen/GcParams.v)"]
 MANIFEST = dict(
     text="Coq theorems: after a collection allocated = reachable for every cell kind (from mark_exact/sweep_exact), the wiped stack holds no reference, the interning table has exactly one entry per allocated symbol, and for ALL admissible parameters of the abstract (capacity, used) machine the capacity is bounded by max(cap0, g(L,B)) and the number of growth events of any run is bounded (heap_plateau); instantiated with the constants regenerated from the source on every run (admissibility by computation). Tied to /repo by heap statistics: capacity(10n) = capacity(n) per allocation kind and live-set size, allocated = reachable after every collection (independent traversal), observed capacities dominated by g.",
     design="DESIGN.md section 5 C12",
-    note="PARTIAL: decided for the VM heap; process memory outside it (Rc cycles, Vec capacities, allocator) is not covered. OPEN: util_test_rational_stmt (f64 test = rational test). Axioms: none.",
+    note="PARTIAL: decided for the VM heap; process memory outside it (Rc cycles, Vec capacities, allocator) is not covered. The f64 utilisation tests are proved equal to the rational tests for capacities below 2^52 (C12_util_test_rational, with Flocq: the four standard Reals axioms); the other theorems are closed under the global context. No OPEN statement.",
     technique="Rocq/Coq proof (invariant of a parametric counter machine; reachability) + heap-statistics correspondence check")
 
 KINDS = {
@@ -229,7 +229,7 @@ def main(tier="quick", seed=0, replay=None):
         "trusted_base": C.TRUSTED_BASE_COMMON + TRUSTED_BASE,
         "theorems": props["theorems"], "axioms_reported": props["axioms"],
         "cone_files": props.get("cone_files", []), "proof_problems": props["problems"],
-        "open_statements": ["util_test_rational_stmt"],
+        "open_statements": [],
         "evaluations": len(cases), "distinct_nontrivial": len(nontrivial),
         "rule": RULE, "samples": samples, "exhaustive": False, "profiles": PROFILES,
         "gc_params_from_source": {k: (list(v) if isinstance(v, tuple) else v) for k, v in P.items()},
